@@ -274,13 +274,39 @@ func (tk *tracker) calls(n ast.Node) int {
 		case *ast.FuncLit:
 			return false
 		case *ast.CallExpr:
-			if !tk.pureCall(e) {
+			if !tk.pureCall(e) && !tk.atomicCall(e) {
 				c++
 			}
 		}
 		return true
 	})
 	return c
+}
+
+// atomicCall: a sync/atomic operation. It is not "pure", but for probe placement it does not count as a
+// call that may reorder the statement's plain operands: the order in which Go evaluates a plain operand
+// and a call in one statement is unspecified, so a plain read that is only race-free if it happens after
+// an atomic load of the same statement is a race under an allowed evaluation order anyway.
+func (tk *tracker) atomicCall(e *ast.CallExpr) bool {
+	fs, ok := unparen(e.Fun).(*ast.SelectorExpr)
+	if !ok {
+		return false
+	}
+	if id, ok := fs.X.(*ast.Ident); ok {
+		if pn, ok := tk.r.info.Uses[id].(*types.PkgName); ok && pn.Imported().Path() == "sync/atomic" {
+			return true
+		}
+	}
+	if tv, ok := tk.r.info.Types[fs.X]; ok && tv.Type != nil {
+		t := tv.Type
+		if p, ok := t.(*types.Pointer); ok {
+			t = p.Elem()
+		}
+		if n, ok := t.(*types.Named); ok && n.Obj().Pkg() != nil && n.Obj().Pkg().Path() == "sync/atomic" {
+			return true
+		}
+	}
+	return false
 }
 
 func (tk *tracker) pureCall(e *ast.CallExpr) bool {
